@@ -1669,10 +1669,96 @@ Result run_single(const FPlan &P, bool crash_mode, bool fault_mode, bool collect
     return e.res;
 }
 
+// C07W: the device fills up in the middle of a record (a write of the active log file transfers half of its
+// bytes, the continuation fails once). Nothing is promised about the record that met the failure, and the
+// reference model of the other checks does not apply to a file with a torn record in it; what C07 still
+// promises is the size bound. Judged on sizes alone, from the directory after every operation: no file may be
+// longer than L unless it holds a single line (records of these plans contain no line feeds).
+Result run_size_only(const FPlan &P)
+{
+    sim::shm_reset();
+    sim::trace_reset();
+    Engine e(P);
+    g_engine = &e;
+    e.fault_mode = true;
+    e.suspended = true; // no model bookkeeping at the boundaries
+    e.setup();
+    sim::set_fake_pid(4242);
+    e.arm();
+    e.cur_op = -1;
+    e.make_sink();
+    auto scan = [&](int opi) {
+        for (auto &n : logdir::list_files(e.logdir_path)) {
+            std::string raw;
+            if (!logdir::read_file(e.logdir_path + "/" + n, raw))
+                continue;
+            long lines = 0;
+            for (char c : raw)
+                if (c == '\n')
+                    lines++;
+            if (raw.size() && raw.back() != '\n')
+                lines++;
+            e.res.probes["files_measured"]++;
+            if ((long)raw.size() > P.L && lines > 1 && e.res.ok) {
+                e.res.ok = false;
+                e.res.cls = e.res.signature = "file-exceeds-limit";
+                e.res.msg = "op " + std::to_string(opi) + ": " + n + " holds " + std::to_string(raw.size()) + " bytes in "
+                        + std::to_string(lines) + " lines; the limit is " + std::to_string(P.L)
+                        + " (after a write of the log file was cut short and its continuation failed)";
+            }
+        }
+    };
+    int recid = 0;
+    for (size_t i = 0; i < P.ops.size() && e.res.ok; i++) {
+        const FOp &op = P.ops[i];
+        e.cur_op = (int)i;
+        sim::fs_begin_op((int)i);
+        sim::FsFault ff;
+        if (op.fault_call >= 0) {
+            ff.call = op.fault_call;
+            ff.nth = op.fault_nth;
+            ff.err = op.fault_errno;
+        }
+        sim::fs_set_fault(ff);
+        if (op.k == "write") {
+            std::string bytes = make_record(recid++, op.n, op.cls);
+            QMessageLogContext ctx("f.cpp", 1, "void f()", "default");
+            LogMessage lmsg(QtDebugMsg, ctx, QString::fromUtf8(bytes.data(), (int)bytes.size()));
+            if (e.sink)
+                e.sink->send(lmsg);
+        } else if (op.k == "advance") {
+            e.do_advance(op);
+        } else if (op.k == "restart") {
+            e.sink.reset();
+            e.iosink = nullptr;
+            e.make_sink();
+        }
+        if (op.fault_call >= 0 && sim::fs_fault_fired())
+            e.res.probes["active_write_cut_short_then_failed"]++;
+        scan((int)i);
+    }
+    sim::fs_set_fault(sim::FsFault());
+    e.sink.reset();
+    e.iosink = nullptr;
+    if (e.res.ok)
+        scan((int)P.ops.size());
+    e.res.probes["short_writes"] = (int)sim::shm()->counters[sim::C_FS_SHORT_WRITE];
+    e.res.probes["errno_injected"] = (int)sim::shm()->counters[sim::C_FS_ERRNO_INJECTED];
+    e.res.proj = e.res.hash = dir_hash(e.logdir_path, sim::trace_hash_now());
+    e.res.fault_runs = 1;
+    sim::fs_disarm();
+    sim::set_fake_pid(0);
+    rm_rf(e.root);
+    g_engine = nullptr;
+    return e.res;
+}
+
 } // namespace
 
 Result run_history(const FPlan &plan)
 {
+    if (plan.prop == "C07W")
+        return run_size_only(plan);
     if (plan.prop == "C08") {
         // fault-free pass with the ordering clause checked at every boundary ...
         bool has_fault = false;
